@@ -360,7 +360,9 @@ def check_C13(sc, v, tier, seed, replay):
 # ------------------------------------------------------------------------------------------------
 # C01 / C02 / C19: the real emulator process against the specification's AMF run by TLC
 # ------------------------------------------------------------------------------------------------
-def _online_collect(v, runs, pid):
+def _online_collect(v, runs, pid, sc=None):
+    if sc is not None:
+        _stg_conformance(sc, v, runs)
     for r in runs:
         t = r["tlc"]
         if not t.ok:
@@ -376,6 +378,23 @@ def _online_collect(v, runs, pid):
             key = "%s:%s" % (rj["ev"], rj["why"].split(":")[-2].strip()[:50] if rj["why"].count(":") >= 2 else rj["why"][:50])
             v.violation(key, rj["why"], {"run": r["name"], "message_index": rj["line"], "why": rj["why"], "scenario": r["scn"],
                                          "pump_log": open(os.path.join(r["dir"], "pump.ndjson")).read().splitlines()[:200]})
+
+
+def _stg_conformance(sc, v, runs):
+    """every recorded run must be a behaviour of the abstract system specification that MCStg checks exhaustively"""
+    import online
+    clean = [r for r in runs if r["verdict"] is not None and r["tlc"].ok and not r["tlc"].rejects]
+    n = 0
+    for r, t in online.validate_stg(sc, clean):
+        if not t.ok:
+            raise HarnessError("TraceStg did not complete for run %s: %s\n%s" % (r["name"], t.error, t.out[-1500:]))
+        v.add_tlc([t])
+        n += 1
+        for rj in t.rejects:
+            lines = online.stg_trace(r)
+            v.violation("Stg:%s" % lines[rj["line"] - 1].get("t", lines[rj["line"] - 1]["ev"]), rj["why"],
+                        {"run": r["name"], "trace_line": rj["line"], "why": rj["why"], "scenario": r["scn"], "stg_trace": lines})
+    v.extra["runs_validated_against_Stg"] = v.extra.get("runs_validated_against_Stg", 0) + n
 
 
 def _mc_stg(sc, v):
@@ -408,7 +427,7 @@ def check_C01(sc, v, tier, seed, replay):
         scn, text = online.make_scenario(rnd, counts, opts=opts)
         jobs.append(("reg%02d" % i, scn, text))
     runs = online.run_many(sc, emu, jobs, parallel=8)
-    _online_collect(v, runs, "C01")
+    _online_collect(v, runs, "C01", sc)
     v.samples = [{"scenario_cfg": runs[0]["scn"]["cfg"], "amf_choices_ue1": runs[0]["scn"]["ues"][0], "notes": runs[0]["verdict"]["notes"]}]
     v.rule = ("scenarios = configuration (IMSI length 11..15, MNC length 2|3, K, OP or OPc, gNB id 22..32 bits, names 1..150) x AMF choices "
               "(RAND, SQN, AMF field, AMF-UE-NGAP-ID over 0..2^40-1 boundaries, ngKSI, optional IEs) x 1..3 UEs; every uplink message of the "
@@ -432,7 +451,7 @@ def check_C02(sc, v, tier, seed, replay):
         scn, text = online.make_scenario(rnd, counts, opts={"mnc_len": 2 + i % 2})
         jobs.append(("life%02d" % i, scn, text))
     runs = online.run_many(sc, emu, jobs, parallel=8, timeout=1500)
-    _online_collect(v, runs, "C02")
+    _online_collect(v, runs, "C02", sc)
     v.samples = [{"counts": runs[-1]["scn"]["cfg"]["counts"], "notes": runs[-1]["verdict"]["notes"]}]
     v.rule = ("complete test-mode runs of the real process (all five loops) for 1..3 UEs and repetition vectors including counts larger than "
               "their prerequisites, network-assigned UE IP / TEID / UPF address, QoS rule lengths 0..1000, optional IEs of the Accept and of "
@@ -477,7 +496,7 @@ def check_C19(sc, v, tier, seed, replay):
         for rj in r["tlc"].rejects:
             if rj["why"].startswith("HARNESS"):
                 raise HarnessError("fault run %s is inconclusive: %s" % (r["name"], rj["why"]))
-    _online_collect(v, runs, "C19")
+    _online_collect(v, runs, "C19", sc)
     v.samples = [{"fault": r["scn"]["fault"], "exit": r["verdict"]["result"].get("code"), "banner": r["verdict"]["result"].get("banner"),
                   "messages_before_exit": r["verdict"]["k"]} for r in runs[:4]]
     v.extra["fault_runs"] = len(runs)
@@ -811,7 +830,7 @@ def check_C18(sc, v, tier, seed, replay):
         s2, t2 = online.make_scenario(rnd, counts)
         jobs.append(("wire%02d" % i, s2, t2))
     runs = online.run_many(sc, emu, jobs, parallel=8)
-    _online_collect(v, runs, "C18")
+    _online_collect(v, runs, "C18", sc)
     v.samples = [{k: evs[0][k] for k in ("assignS", "assignI")}, clis[1], {"wire_run_cfg": runs[0]["scn"]["cfg"]}]
     v.rule = ("(a) seeded assignments of all 24 documented keys (leading zeros, upper/lower-case hex, empty strings, escapes in gnb_id, 150-char names, "
               "ports 0/65535, counts 0/1/large; keys written in random order) loaded by the real GetConfiguration and compared key by key; "
